@@ -16,7 +16,7 @@ import (
 
 func init() { register("C14", checkC14) }
 
-var sigma14 = []string{"a", "Z", "_", "0", " ", "\"", "'", "`", "\\", "/", "b", "n", "u", "{", "[", ".", "\n", "\x01", "\x7f", "\u0080", "é", "€", "😀", "\uffff", "\ufffd", "\r"}
+var sigma14 = []string{"a", "Z", "_", "0", " ", "\"", "'", "`", "\\", "/", "b", "n", "u", "{", "[", ".", "\n", "\x01", "\x7f", "\u0080", "é", "€", "😀", "\uffff", "\ufffd", "\r", "\x00", "\t"}
 
 // three independent JSON escapings of a string
 func escMinimal(s string) string {
